@@ -49,6 +49,7 @@ type Cmd struct {
 	Set    []SetQuery                 `json:"set"`
 	Conc   bool                       `json:"concurrent"`
 	SetID  string                     `json:"setId"`
+	Desc   map[string]interface{}     `json:"desc"`
 }
 
 // SetQuery is one member of a set of queries run one after the other or all
@@ -424,6 +425,27 @@ func (r *runner) exec(c *Cmd) error {
 					"fields": []string{}, "win": false, "held": 0})
 			}
 		}
+	case "GQuery":
+		// a grouped / time-ranged query whose rows are bound to the specification
+		raw, err := r.node.RawQuery(c.SQL, c.Mem, stepTimeout)
+		fields := c.Fields
+		if fields == nil {
+			fields = []string{}
+		}
+		line := map[string]interface{}{"a": "GQueryResult", "t": c.T, "mem": c.Mem, "sql": c.SQL, "desc": c.Desc,
+			"fields": fields, "err": "", "raw": raw}
+		dec := r.node.DecodeRawFields(raw, fields)
+		if dec == nil {
+			dec = []zv.Row{}
+		}
+		line["rows"] = dec
+		if raw == nil {
+			line["raw"] = []zv.RawRow{}
+		}
+		if err != nil {
+			line["err"] = err.Error()
+		}
+		ctl.Emit(line)
 	case "RunSQL":
 		// any query; only its row count is recorded
 		n := 0
